@@ -166,7 +166,9 @@ func c13RunOnce(t c13TB, ch *c13Change, mode string) c13Outcome {
 
 	c13Apply(t, c, ch, mode)
 
-	reloadFailed := c13Dead(c.Core)
+	// Barrier also returns when the Core's context was cancelled: that happens only when the reload failed and the
+	// Core is shutting down by itself (the harness has not called Close yet).
+	reloadFailed := c.Core.ctx.Err() != nil
 	var sRel c13State
 	var instRel map[string]any
 	if reloadFailed {
@@ -197,7 +199,7 @@ func c13RunOnce(t c13TB, ch *c13Change, mode string) c13Outcome {
 
 	if reloadFailed {
 		out.Violations = append(out.Violations,
-			"the reload failed and the server shut down, although a fresh server starts with the new configuration")
+			"the reload failed and the server shut down, although a fresh server starts with the new configuration"+c13LogTail(ch))
 		out.Retry = "reload failed but a fresh start works (transient port clash?)"
 		return out
 	}
@@ -296,6 +298,28 @@ func c13RunOnce(t c13TB, ch *c13Change, mode string) c13Outcome {
 	return out
 }
 
+// c13LogTail returns the ERR lines of the log files of the case (the reason a reload failed).
+func c13LogTail(ch *c13Change) string {
+	var out []string
+	for _, m := range []map[string]any{ch.Old, ch.New} {
+		if f, ok := m["logFile"].(string); ok {
+			b, _ := os.ReadFile(f)
+			for _, l := range strings.Split(string(b), "\n") {
+				if strings.Contains(l, "ERR") {
+					out = append(out, l)
+				}
+			}
+		}
+	}
+	if len(out) > 6 {
+		out = out[len(out)-6:]
+	}
+	if len(out) == 0 {
+		return ""
+	}
+	return " [log: " + strings.Join(out, " | ") + "]"
+}
+
 func c13Describe(ch *c13Change, mode string) string {
 	var parts []string
 	for _, f := range ch.Fields {
@@ -308,7 +332,7 @@ func c13Describe(ch *c13Change, mode string) string {
 	return fmt.Sprintf("[%s] %s\n   %s", mode, ch.Variant, strings.Join(parts, "\n   "))
 }
 
-// c13Run evaluates a case (rebuilding it when the environment interferes) and fails on violations.
+// c13Run evaluates a case (rebuilding it when the environment interferes). Violations are returned in the outcome.
 func c13Run(t c13TB, build func(cx *c13Cx) *c13Change, mode string) (*c13Change, c13Outcome) {
 	var last c13Outcome
 	var ch *c13Change
@@ -320,17 +344,18 @@ func c13Run(t c13TB, build func(cx *c13Cx) *c13Change, mode string) (*c13Change,
 		if last.Retry == "" {
 			break
 		}
-		t.Logf("c13: retrying case (%s)", last.Retry)
+		fmt.Printf("c13: retrying case (%s) %v\n", last.Retry, last.Violations)
 	}
 	if last.Retry != "" && len(last.Violations) == 0 {
 		fmt.Println("VERIF-INCONCLUSIVE: environment:", last.Retry)
 		t.Fatalf("VERIF-INCONCLUSIVE: %s (3 attempts)\n%s", last.Retry, c13Describe(ch, mode))
 	}
-	if len(last.Violations) > 0 {
-		sort.Strings(last.Violations)
-		t.Fatalf("VIOLATION C13 %s\n - %s", c13Describe(ch, mode), strings.Join(last.Violations, "\n - "))
-	}
+	sort.Strings(last.Violations)
 	return ch, last
+}
+
+func c13Message(ch *c13Change, mode string, o c13Outcome) string {
+	return fmt.Sprintf("VIOLATION C13 %s\n - %s", c13Describe(ch, mode), strings.Join(o.Violations, "\n - "))
 }
 
 func c13VariantGen(t *rapid.T) c13BaseVariant {
@@ -460,6 +485,9 @@ func TestVerifC13Reload(t *testing.T) {
 			return // the whole change set falls into a known finding
 		}
 		ch, o := c13Run(t, func(cx *c13Cx) *c13Change { return c13Build(cx, v, c13Base(cx, v), sel, alt) }, mode)
+		if len(o.Violations) > 0 {
+			t.Fatalf("%s", c13Message(ch, mode, o))
+		}
 		for _, k := range o.Excluded {
 			rec.Excluded(k)
 		}
@@ -468,41 +496,87 @@ func TestVerifC13Reload(t *testing.T) {
 	})
 }
 
-// TestVerifC13EachFieldAlone enumerates (thorough tier): every global field, changed alone, every alternative value,
-// through the API and through the watched file; shards split the list.
-func TestVerifC13EachFieldAlone(t *testing.T) {
-	if !kit.Thorough() && kit.EnvInt("C13_ENUMERATE", 0) == 0 {
-		t.Skip("enumeration runs in the thorough tier")
+// c13EnumVariants are the base variants the enumerations run on.
+func c13EnumVariants() []c13BaseVariant {
+	vs := []c13BaseVariant{{RTSPEncryption: "optional", RTMPEncryption: "optional", Cleaner: true}}
+	if kit.Thorough() {
+		vs = append(vs,
+			c13BaseVariant{RTSPEncryption: "strict", RTMPEncryption: "no"},
+			c13BaseVariant{RTSPEncryption: "no", RTMPEncryption: "strict", Cleaner: true},
+			c13BaseVariant{RTSPEncryption: "optional", RTMPEncryption: "optional", RTSPUDPBuf: true},
+		)
 	}
+	return vs
+}
+
+// c13EnumCase runs one enumerated case; violations are reported with Errorf so that the enumeration goes on
+// (the complete list of failing fields is what a maintainer needs).
+func c13EnumCase(t *testing.T, rec *kit.Rec, v c13BaseVariant, sel []c13FieldInfo, alt map[string]int, mode, class string) {
+	sel, cut := c13ApplyKnown(&v, sel)
+	for _, key := range cut {
+		rec.Excluded(key)
+	}
+	if len(sel) == 0 {
+		return
+	}
+	ch, o := c13Run(t, func(cx *c13Cx) *c13Change { return c13Build(cx, v, c13Base(cx, v), sel, alt) }, mode)
+	if len(o.Violations) > 0 {
+		t.Errorf("%s", c13Message(ch, mode, o))
+	}
+	for _, key := range o.Excluded {
+		rec.Excluded(key)
+	}
+	nt, cls := c13Classes(ch, o, mode)
+	rec.Case(nt, ch.Desc()+" via "+mode, append(cls, class)...)
+}
+
+// TestVerifC13EachFieldAlone enumerates (not samples): every global field, changed alone, every alternative value,
+// through the API and through the watched file, on every enumeration variant; shards split the list.
+func TestVerifC13EachFieldAlone(t *testing.T) {
 	rec := kit.R("TestVerifC13EachFieldAlone")
 	t.Cleanup(kit.Flush)
 	shard := kit.EnvInt("VERIF_SHARD", 0)
 	shards := kit.EnvInt("C13_SHARDS", 1)
 	all := c13GlobalFields()
 	k := 0
-	for fi, f := range all {
-		for a := 0; a < c13AltCount(f.Name); a++ {
+	for _, v := range c13EnumVariants() {
+		for _, f := range all {
+			for a := 0; a < c13AltCount(f.Name); a++ {
+				k++
+				if k%shards != shard%shards {
+					continue
+				}
+				for _, mode := range []string{"api", "file"} {
+					c13EnumCase(t, rec, v, []c13FieldInfo{f}, map[string]int{f.Name: a}, mode, "alone")
+				}
+			}
+		}
+	}
+}
+
+// TestVerifC13EachPair enumerates every unordered pair of global fields (first alternative of each, API) on the
+// all-enabled variant. Thorough tier only.
+func TestVerifC13EachPair(t *testing.T) {
+	if !kit.Thorough() && kit.EnvInt("C13_PAIRS", 0) == 0 {
+		t.Skip("pair enumeration runs in the thorough tier")
+	}
+	rec := kit.R("TestVerifC13EachPair")
+	t.Cleanup(kit.Flush)
+	shard := kit.EnvInt("VERIF_SHARD", 0)
+	shards := kit.EnvInt("C13_SHARDS", 1)
+	all := c13GlobalFields()
+	v := c13BaseVariant{RTSPEncryption: "optional", RTMPEncryption: "optional", Cleaner: true}
+	k := 0
+	for i := 0; i < len(all); i++ {
+		for j := i + 1; j < len(all); j++ {
 			k++
 			if k%shards != shard%shards {
 				continue
 			}
-			v := c13BaseVariant{RTSPEncryption: "optional", RTMPEncryption: "optional", Cleaner: fi%2 == 0}
-			sel, cut := c13ApplyKnown(&v, []c13FieldInfo{f})
-			for _, key := range cut {
-				rec.Excluded(key)
+			if t.Failed() && k > 40*shards {
+				return // enough evidence; do not spend the whole budget on a failing tree
 			}
-			if len(sel) == 0 {
-				continue
-			}
-			alt := map[string]int{f.Name: a}
-			for _, mode := range []string{"api", "file"} {
-				ch, o := c13Run(t, func(cx *c13Cx) *c13Change { return c13Build(cx, v, c13Base(cx, v), sel, alt) }, mode)
-				for _, key := range o.Excluded {
-					rec.Excluded(key)
-				}
-				nt, cls := c13Classes(ch, o, mode)
-				rec.Case(nt, ch.Desc()+" via "+mode, append(cls, "alone")...)
-			}
+			c13EnumCase(t, rec, v, []c13FieldInfo{all[i], all[j]}, map[string]int{}, "api", "pair")
 		}
 	}
 }
@@ -530,7 +604,10 @@ func c13Regress(t *testing.T, key string, v c13BaseVariant, mode string, fields 
 			t.Fatalf("harness: unknown field %s", n)
 		}
 	}
-	c13Run(t, func(cx *c13Cx) *c13Change { return c13Build(cx, v, c13Base(cx, v), sel, map[string]int{}) }, mode)
+	ch, o := c13Run(t, func(cx *c13Cx) *c13Change { return c13Build(cx, v, c13Base(cx, v), sel, map[string]int{}) }, mode)
+	if len(o.Violations) > 0 {
+		t.Errorf("%s", c13Message(ch, mode, o))
+	}
 }
 
 var c13Optional = c13BaseVariant{RTSPEncryption: "optional", RTMPEncryption: "optional"}
